@@ -471,7 +471,9 @@ class Check(PropertyCheck):
                   "own_socket_never_connected, not_blocked_reaches_socket, the spelling classes one by one — for the text forms "
                   "themselves, without parse hypotheses, via the C22 read-back theorems and normHost fixed points: "
                   "every_127_address_blocked (`127.b.c.d` for all b,c,d), every_mapped_127_address_blocked "
-                  "(`::ffff:127.b.c.d`), listen_address_dotted_blocked (the listen address as dotted quad or IPv4-mapped) — "
+                  "(`::ffff:127.b.c.d`), listen_address_dotted_blocked (the listen address as dotted quad or IPv4-mapped), "
+                  "localhost_case_and_dot_blocked (every text whose ASCII lower-casing is localhost / localhost.), "
+                  "wildcard_texts_blocked (`0.0.0.0`, `::`, `::ffff:0.0.0.0`), ipv6_loopback_texts_blocked (`::1`) — "
                   "and over HISTORIES: "
                   "the listener set is state changed by a transcription of Servers.update (instances of kept specs kept, new "
                   "specs started, the rest dropped, server=False drops all); history_never_connects_to_current_own_socket proves "
@@ -488,7 +490,9 @@ class Check(PropertyCheck):
                   "stopped, new ones are listed before they start), and inflight_never_connects_to_listening_socket that an "
                   "attempt at a socket LISTENING at that moment is killed whether or not the update binding or closing it has "
                   "finished; update_is_settled_view / settled_update_blocks tie the two listener models: after the events of one "
-                  "complete update the per-event guard view contains every listener the per-update model predicts. "
+                  "complete update the per-event guard view contains every listener the per-update model predicts, and with "
+                  "unique keys (update_is_settled_view_exact; reachable_keys_nodup shows the uniqueness is an invariant of "
+                  "duplicate-free reconfigurations) listening = guard view = prediction exactly. "
                   "Tie: the real Proxyserver addon through the real AddonManager and ProxyConnectionHandler.open_connection on "
                   "~90 spellings x 33 listen configurations x transports x ports x connect outcome, stub-listener histories "
                   "(per call AND as one stateful `run`), 2-5 attempts on the SAME Server object through the same handler "
